@@ -608,6 +608,17 @@ Theorem C17_suffix_sites_from_model : forallb segment_matches (seq 0 10) = true.
 Proof. exact suffix_sites_from_model. Qed.
 Print Assumptions C17_suffix_sites_from_model.
 
+(* the same two ties WITHOUT a probe: for every declaration *)
+Theorem C17_run_order_for_every_declaration : forall e fl,
+  landmarks (expand_with e fl) = flat_map (defines e) EntityGen.run_order ++ map schema_landmark (e_schemas e).
+Proof. exact run_order_universal. Qed.
+Print Assumptions C17_run_order_for_every_declaration.
+
+Theorem C17_entity_parts_for_every_declaration : forall e fl,
+  psm_parts (expand_with e fl) = map (part_of e) EntityGen.entity_parts.
+Proof. exact entity_parts_universal. Qed.
+Print Assumptions C17_entity_parts_for_every_declaration.
+
 Theorem C17_strcase_calls_from_model : strcase_calls_from_model_stmt.
 Proof. exact strcase_calls_from_model. Qed.
 Print Assumptions C17_strcase_calls_from_model.
